@@ -600,6 +600,94 @@ def run_valgrind_shard(rec):
             rec.violation("valgrind", todo[k], unknown)
 
 
+# ------------------------------------------------------------------ labelling kernels around the growth of their tables
+
+CAPS = [16384, 32768, 65536]
+
+
+@st.composite
+def manycases(draw):
+    """frames whose number of separately started objects sits at / next to the sizes at which the labelling kernels
+    grow their equivalence table (16384 words, doubled as needed)"""
+    cap = draw(st.sampled_from(CAPS[:2] + CAPS))
+    nobj = cap + draw(st.sampled_from([-3, -2, -1, 0, 1, 2, 3, 5, 1000]))
+    return dict(nobj=nobj, pitch=draw(st.sampled_from([2, 3])), seed=draw(st.integers(0, 2 ** 31 - 1)),
+                domino=draw(st.booleans()), width=draw(st.sampled_from([0, 0, 257, 1000])))
+
+
+def check_many(q, rec=None):
+    from ImageD11 import cImageD11 as c
+    if rec is not None:
+        rec.journal("many_labels", q)
+    rng = np.random.RandomState(q["seed"] % (2 ** 32))
+    nobj, pitch = q["nobj"], q["pitch"]
+    side = q["width"] or int(np.ceil(np.sqrt(nobj)))
+    nrow = (nobj + side - 1) // side
+    k = np.arange(nobj)
+    r, cc = pitch * (k // side) + 1, (pitch + 1) * (k % side) + 1
+    im = np.zeros((pitch * nrow + 2, (pitch + 1) * side + 2), np.float32)
+    obj = np.zeros(im.shape, np.int64)                 # object number by construction: isolated pixels / dominoes
+    im[r, cc] = 10 + rng.randint(0, 50, nobj)
+    obj[r, cc] = k + 1
+    if q["domino"]:
+        d = rng.random_sample(nobj) < 0.3
+        im[r[d], cc[d] + 1] = 7
+        obj[r[d], cc[d] + 1] = k[d] + 1
+    fails = []
+
+    def judge(name, n, lab, ob):
+        lab = np.asarray(lab)
+        if n != nobj:
+            fails.append(fail("many_labels", "%s: %d objects returned for a frame of %d separate objects" %
+                              (name, n, nobj), kernel=name))
+        elif lab.min() < 0 or lab.max() > n or ((lab > 0) != (ob > 0)).any():
+            fails.append(fail("many_labels", "%s: labels outside 0..%d (largest %d) or on background, frame of %d "
+                              "separate objects" % (name, n, lab.max(), nobj), kernel=name))
+        else:
+            m = ob > 0
+            first = np.zeros(nobj + 1, np.int64)
+            first[ob[m]] = lab[m]
+            if (first[ob[m]] != lab[m]).any() or len(np.unique(first[1:])) != nobj:
+                fails.append(fail("many_labels", "%s: the labels do not number the %d separate objects one to one" %
+                                  (name, nobj), kernel=name))
+    for pat in (P1, P2):
+        lab = buf(im.shape, np.int32, pat)
+        ok, n = guard(c.connectedpixels, im, lab, 0.5, 0, 1)
+        if not ok:
+            return [exc_failure("connectedpixels", n)]
+        judge("connectedpixels", n, lab, obj)
+        if n > 0 and not fails:
+            res = c.blobproperties(im, lab, n, 0.0)
+            if not (res[:, 0] >= 1).all():          # s_1 = number of pixels: every object has some
+                fails.append(fail("many_labels", "blobproperties: objects without pixels in a frame of %d objects" %
+                                  nobj, kernel="blobproperties"))
+        i, j = np.nonzero(im)
+        i, j = i.astype(np.uint16), j.astype(np.uint16)
+        v = im[i, j]
+        lab1 = buf(len(i), np.int32, pat)
+        ok, n1 = guard(c.sparse_connectedpixels, v, i, j, 0.5, lab1)
+        if not ok:
+            return [exc_failure("sparse_connectedpixels", n1)]
+        judge("sparse_connectedpixels", n1, lab1, obj[i, j])
+        lab2 = buf(len(i), np.int32, pat)
+        Z = buf((im.shape[0] + 2) * (im.shape[1] + 2), np.int32, pat)
+        ok, n2 = guard(c.sparse_connectedpixels_splat, v, i, j, 0.5, lab2, Z, im.shape[0], im.shape[1])
+        if not ok:
+            return [exc_failure("sparse_connectedpixels_splat", n2)]
+        judge("sparse_connectedpixels_splat", n2, lab2, obj[i, j])
+        if n1 > 0 and not fails:
+            res = c.sparse_blob2Dproperties(v, i, j, lab1, n1)
+            if not (res[:, 0] >= 1).all():
+                fails.append(fail("many_labels", "sparse_blob2Dproperties: objects without pixels in a frame of %d "
+                                  "objects" % nobj, kernel="sparse_blob2Dproperties"))
+        if fails:
+            break
+    if rec is not None:
+        rec.case(q, True, ["many_labels:%d%+d" % (min(CAPS, key=lambda x: abs(x - nobj)),
+                                                   nobj - min(CAPS, key=lambda x: abs(x - nobj)))])
+    return fails
+
+
 def run_shard(rec):
     import os
     if os.environ.get("VERIF_FLAVOUR") == "dbg":
@@ -607,6 +695,7 @@ def run_shard(rec):
     quick = rec.tier == "quick"
     hyp_run(rec, "kernels", cases(False), lambda q: check(q, rec), max_examples=500 if quick else 5000)
     hyp_run(rec, "kernels", cases(True), lambda q: check(q, rec), max_examples=10 if quick else 80, shrink=False)
+    hyp_run(rec, "many_labels", manycases(), lambda q: check_many(q, rec), max_examples=4 if quick else 40, shrink=False)
     second_engine(rec, 15 if quick else 200)
 
 
@@ -620,4 +709,6 @@ def replay(sub, case, rec):
               "c14o": c14.check_ov, "c06": c06.check}[sub.split(":")[1]]
         fn(case, None)
         return []
+    if sub == "many_labels":
+        return check_many(case, None)
     return check(case, None)
